@@ -243,6 +243,8 @@ def add_clause(b, kw, rest, path, ln):
         b.noinit = True
     elif kw == 'recursive':
         b.recursive = True
+    elif kw == 'cap':
+        b.cap = int(rest)
     elif kw == 'abstable':
         # abstable <abstract function> <operand struct> <operand harness variable>
         b.abstable = getattr(b, 'abstable', []) + [rest.split()]
@@ -483,10 +485,9 @@ def gen_c(b, blocks, path):
         if b.fn not in u.fn_by_cname:
             raise Undecided('contract block %s (%s:%d) matches no instantiated function' % (b.name, b.file, b.line))
         roots.append(b.fn)
-    for r in b.replace:
-        if r not in u.fn_by_cname:
-            raise Undecided('replaced callee %s of block %s matches no instantiated function' % (r, b.name))
-        roots.append(r)
+    # a callee named in `replace` that the function no longer calls (or that is not instantiated any more) is
+    # simply not replaced: a refactoring of the call structure must not make the block undecided
+    b.replace_eff = []
     # lemma bodies name functions directly
     if b.kind == 'lemma':
         for w in set(re.findall(r'\b[A-Za-z_][A-Za-z_0-9]*\b', ' '.join(b.body))):
@@ -515,6 +516,7 @@ def gen_c(b, blocks, path):
         need.append(fi)
         for c in sorted(getattr(fi, 'calls', None) or []):
             todo.append(c)
+    b.replace_eff = [r for r in b.replace if r in seen and r != b.fn]
     order = [fi for fi in u.order if fi in need]
     for fi in need:
         if fi not in order:
@@ -549,7 +551,7 @@ def gen_c(b, blocks, path):
         cb = byname.get(fi.cname)
         out.append('/* %s:%s-%s */' % (fi.src[0], fi.src[1], fi.src[2]))
         out.append(fi.sig)
-        if cb is not None and (fi.cname == b.fn or fi.cname in b.replace):
+        if cb is not None and (fi.cname == b.fn or fi.cname in b.replace_eff):
             for kind, tags, text in clause_lines(cb):
                 out.append('  ' + text)
                 linemap[len(out)] = (fi.cname, kind, tags, text)
@@ -840,7 +842,7 @@ def decide(gb, b, tmo, only=None, extra=None):
 def refute_small(r, b, cfile, hname, cmd, ids, tmo, want_all=False):
     base = r.base
     defs = ['-D' + d for d in getattr(b, 'defines', [])]
-    rc, out, err, dt = sh(['goto-cc', '--function', hname, '-DBS_CANARY()=', '-DBS_SMALLGRID=1', '-DBS_CAP=8UL'] + defs + ['-o', base + '.s.gb', cfile], 120)
+    rc, out, err, dt = sh(['goto-cc', '--function', hname, '-DBS_CANARY()=', '-DBS_SMALLGRID=1', '-DBS_CAP=%dUL' % getattr(b, 'cap', 8)] + defs + ['-o', base + '.s.gb', cfile], 120)
     if rc != 0:
         return set()
     # the small instance ignores the loop contracts: every loop is unwound completely (at most BS_CAP + 1 iterations),
@@ -928,7 +930,7 @@ def run_block(r, blocks, keep=False, verbose=False):
     base, cfile, hname, linemap = r.base, r.cfile, r.hname, r.linemap
     tmo = b.timeout or TIMEOUT
     defs = ['-D' + d for d in getattr(b, 'defines', [])]
-    rc, out, err, dt = sh(['goto-cc', '--function', hname, '-DBS_CANARY()='] + defs + (['-DBS_CAP=8UL'] if b.bounded else []) +
+    rc, out, err, dt = sh(['goto-cc', '--function', hname, '-DBS_CANARY()='] + defs + (['-DBS_CAP=%dUL' % getattr(b, 'cap', 8)] if b.bounded else []) +
                           ['-o', base + '.a.gb', cfile], 120)
     if rc != 0:
         r.reason = 'goto-cc failed: ' + (err or out)[-1500:]
@@ -936,7 +938,7 @@ def run_block(r, blocks, keep=False, verbose=False):
     cmd = ['goto-instrument', '--dfcc', hname]
     if b.kind == 'function' and not b.noharness:
         cmd += ['--enforce-contract-rec' if getattr(b, 'recursive', False) else '--enforce-contract', b.fn]
-    for g in b.replace:
+    for g in getattr(b, 'replace_eff', b.replace):
         cmd += ['--replace-call-with-contract', g]
     ctext = open(cfile).read()
     body_text = ctext[ctext.index('#include "%s/rt/harness.h"' % ROOT):]
